@@ -301,8 +301,12 @@ PRIORITY = ["crash", "error", "nonfinite", "negative", "sum", "ground", "ratio",
 
 def run(chk):
     quick = chk.tier == "quick"
-    ok, log = chk.prove(["extract/Extract_C09.vo", "extract/Extract_ED.vo", "theories/ThermalExamples.vo"])
-    chk.trusted += ["hand-written model coq/theories/Thermal.v (tied by correspondence only)",
+    ok, log = chk.prove(["extract/Extract_C09.vo", "extract/Extract_ED.vo", "theories/ThermalExamples.vo"],
+                        extra_props=["Properties_C09_source.v"])
+    chk.trusted += ["hand-written model coq/theories/Thermal.v: tied by correspondence, and for the Boltzmann factor, the occupancy summands (index order of the "
+                    "eigenvector matrix) and the tests of EnsembleAverage::prepare by translator/gen_thermal.py (+ translator/cexpr.py): pattern recognition of "
+                    "those C++ statements, whose output the theorems of Properties_C09_source.v are stated about; everything else of the model (ground energy, "
+                    "normalisation, loop structure, getAverageEnergy, state lookup) by correspondence only",
                     "extraction: ExtrOcamlBasic, ExtrOcamlNatInt, ExtrOCamlFloats (PrimFloat -> Float64 of coq-core.kernel); exp = OCaml Stdlib.exp",
                     "ocaml/driver_c09.ml, ocaml/driver_ed.ml (parsing, assembling U), harness/h_ed.cpp + ed_common.h, tools/edlib.py, tools/scen.py",
                     "full-space oracle coq/theories/EDSpec.v at binary64 (Jordan-Wigner matrices, rotation, Tr rho O)",
@@ -378,7 +382,7 @@ def replay(chk, path):
     if not sc:
         run(chk)
         return chk.finish()
-    chk.prove(["extract/Extract_C09.vo", "extract/Extract_ED.vo"])
+    chk.prove(["extract/Extract_C09.vo", "extract/Extract_ED.vo"], extra_props=["Properties_C09_source.v"])
     edlib.binaries("real")
     fam, beta, kind = rp["replay"]["family"], rp["replay"]["beta"], rp["replay"]["offset"]
     text = strip_beta(sc)
